@@ -146,7 +146,7 @@ class Direction:
         if self.mode == 'tcp':
             self.buf += data
         else:
-            self.msgs.append(bytes(data))
+            self.msgs.append(data if isinstance(data, NonBinary) else bytes(data))
 
     def do_cut(self, how):
         """how = 'eof' (orderly close seen by the receiver) | 'error' (receiver's read fails, sender's writes fail)"""
@@ -213,11 +213,20 @@ class FakeWriter:
         return default
 
 
+class NonBinary(bytes):
+    """a websocket message that is not BINARY (TEXT / PING / PONG): a message transport has to skip it"""
+    kind = 'TEXT'
+
+
 class _Msg:
     def __init__(self, data):
         import aiohttp
-        self.type = aiohttp.WSMsgType.BINARY
-        self.data = data
+        if isinstance(data, NonBinary):
+            self.type = getattr(aiohttp.WSMsgType, data.kind)
+            self.data = data.decode('latin-1') if data.kind == 'TEXT' else bytes(data)
+        else:
+            self.type = aiohttp.WSMsgType.BINARY
+            self.data = data
 
 
 class FakeWS:
